@@ -317,12 +317,26 @@ impl<'a, 'b> Gen<'a, 'b> {
         let mut arms: Vec<(String, E)> = vec![];
         if bool_sel {
             let which = self.t.choice(3);
+            // arms with other names never match a boolean, wherever they stand
+            let other = |g: &mut Self, arms: &mut Vec<(String, E)>| {
+                if g.t.chance(1, 4) {
+                    g.mark("bool-select-with-other-arm");
+                    let k = (*g.t.pick(&["yes", "no", "a", "maybe"])).to_string();
+                    if !arms.iter().any(|(k2, _)| *k2 == k) {
+                        let e = g.arm(ty, depth);
+                        arms.push((k, e));
+                    }
+                }
+            };
+            other(self, &mut arms);
             if which != 1 {
                 arms.push(("true".into(), self.arm(ty, depth)));
             }
+            other(self, &mut arms);
             if which != 0 {
                 arms.push(("false".into(), self.arm(ty, depth)));
             }
+            other(self, &mut arms);
         } else {
             let n = 1 + self.t.choice(3);
             for _ in 0..n {
